@@ -569,11 +569,11 @@ def liveness(o, T):
 
 # ---- C11 / C12 / C14 on the edges of whole factories (same oracles as Layer A, fed from the observer log) ------------------
 class _Rec:
-    __slots__ = ("name", "put_t", "put_seq", "avail_t", "avail_seq", "got_t", "got_seq", "d")
+    __slots__ = ("name", "put_t", "put_seq", "avail_t", "avail_seq", "avail_pos", "got_t", "got_seq", "d")
 
     def __init__(self, name):
         self.name = name
-        self.put_t = self.put_seq = self.avail_t = self.avail_seq = self.got_t = self.got_seq = self.d = None
+        self.put_t = self.put_seq = self.avail_t = self.avail_seq = self.avail_pos = self.got_t = self.got_seq = self.d = None
 
 
 class _FleetView:
@@ -597,14 +597,65 @@ class _FleetView:
         self._o.probe(k)
 
 
+def c13_factory_edge(o, eid, recs, d, slot, Tt, T, lab):
+    """C13 for a continuous non-accumulating conveyor inside a factory (real nodes feed and empty it): while the head waits at the
+    exit nothing is admitted and nothing advances.  Judged only when no retrieval reservation was held over time, so that
+    'the head waits' is exactly [offered, taken)."""
+    from .oracle_belt import overlap
+    toks = d["toks"]
+    for tk, (kind, g_t, g_pos, end_t) in toks.items():
+        if kind == "g" and g_t is not None and (end_t if end_t is not None else T) != g_t:
+            o.probe("c13_factory_edge_skipped_held_retrieval")
+            return
+    S = [(r.avail_t, r.got_t if r.got_t is not None else T) for r in recs if r.avail_t is not None]
+    S = [(a, b) for a, b in S if b - a > 1e-7]          # (float noise between a timer and a node's clock is not a stall)
+    eps = 1e-9
+    for tk, (kind, g_t, g_pos, end_t) in toks.items():
+        if kind != "p" or g_t is None:
+            continue
+        for r in recs:
+            if r.avail_t is None:
+                continue
+            a, b = r.avail_t, (r.got_t if r.got_t is not None else T)
+            if not b - a > 1e-7:
+                continue
+            if a + eps < g_t < b - eps or (abs(g_t - a) <= eps and r.avail_pos is not None and g_pos > r.avail_pos):
+                o.violate("C13", "nonacc-admission", lab, f"edge {eid}: an entry reservation was granted at {g_t} while the head item {r.name} was waiting at the exit during [{a}, {b})")
+                return
+    for r in recs:
+        if r.avail_t is None:
+            exp_min = r.put_t + Tt + overlap(S, r.put_t, T)
+            if T > exp_min + 1e-7 * max(1, Tt) and not any(a <= T <= b for a, b in S):
+                o.violate("C13", "nonacc-frozen", lab, f"edge {eid}: {r.name} entered at {r.put_t}; with {overlap(S, r.put_t, T)} of stopped belt it should have been offered at {exp_min}, "
+                          f"still moving at T={T}")
+                return
+            continue
+        exp = r.put_t + Tt + overlap(S, r.put_t, r.avail_t)
+        if abs(r.avail_t - exp) > 1e-7 * max(1, Tt):
+            o.violate("C13", "nonacc-frozen", lab, f"edge {eid}: {r.name} entered at {r.put_t}, belt stopped for {overlap(S, r.put_t, r.avail_t)} meanwhile: it must be offered at "
+                      f"{exp} (entry + travel {Tt} + stopped time) but was offered at {r.avail_t}")
+            return
+    o.probe("c13_conveyor_edge_in_factory_checked")
+
+
 def timed_edges(o, T):
     run = o.run
     per = {}
     k = 0
-    for r in run.log:
+    for pos, r in enumerate(run.log):
+        if r[0] in ("rp", "rg", "grant", "cp", "cg") or (r[0] in ("put", "get") and r[4] is not None):
+            dd = per.setdefault(r[3], {"recs": {}, "hist": [], "draws": [], "toks": {}})
+            tk = r[4]
+            cur = dd["toks"].get(tk)
+            if r[0] in ("rp", "rg"):
+                dd["toks"][tk] = (r[0][1], None, None, None)
+            elif r[0] == "grant" and cur is not None:
+                dd["toks"][tk] = (cur[0], r[2], pos, None)
+            elif cur is not None and cur[3] is None:
+                dd["toks"][tk] = (cur[0], cur[1], cur[2], r[2])
         if r[0] in ("put", "get", "avail"):
             eid = r[3]
-            d = per.setdefault(eid, {"recs": {}, "hist": [], "draws": []})
+            d = per.setdefault(eid, {"recs": {}, "hist": [], "draws": [], "toks": {}})
             iid = r[5] if r[0] != "avail" else r[4]
             rec = d["recs"].get(iid)
             if rec is None:
@@ -617,9 +668,9 @@ def timed_edges(o, T):
                 rec.got_t, rec.got_seq = r[2], k
                 d["hist"].append(("get", r[1], r[2], iid, r[4]))
             else:
-                rec.avail_t, rec.avail_seq = r[2], k
+                rec.avail_t, rec.avail_seq, rec.avail_pos = r[2], k, pos
         elif r[0] == "edelay":
-            per.setdefault(r[3], {"recs": {}, "hist": [], "draws": []})["draws"].append(r[4])
+            per.setdefault(r[3], {"recs": {}, "hist": [], "draws": [], "toks": {}})["draws"].append(r[4])
     for eid, d in per.items():
         er = o.erec[eid]
         recs = sorted([r for r in d["recs"].values() if r.put_t is not None], key=lambda r: r.put_seq)
@@ -673,3 +724,5 @@ def timed_edges(o, T):
                         o.violate("C12", "exact-travel", lab, f"edge {eid}: destination took every item at once, yet {r.name} entered at {r.put_t} was offered at {r.avail_t} (travel time {Tt})")
                         break
             o.probe("c12_conveyor_edge_in_factory_checked")
+            if er.type == "cconv" and not spec.get("accumulating"):
+                c13_factory_edge(o, eid, recs, d, slot, Tt, T, lab)
